@@ -1,8 +1,9 @@
 __all__ = ["parse_assignment"]
 
 from functools import reduce
+from math import isfinite
 
-from parsita import ParseError, ParserContext, lit, reg, rep, rep1sep, repsep
+from parsita import ParseError, ParserContext, failure, lit, reg, rep, rep1sep, repsep, success
 from parsita.util import splat
 from returns import result
 
@@ -24,8 +25,10 @@ def make_expression(first, rest):
 class TensorExpressionParsers(ParserContext, whitespace=r"[ ]*"):
     name = reg(r"[A-Za-z][A-Za-z0-9]*")
 
-    floating_point = reg(r"\d+((\.\d+([Ee][+-]?\d+)?)|((\.\d+)?[Ee][+-]?\d+))") > (
-        lambda x: Float(float(x))
+    floating_point = reg(r"\d+((\.\d+([Ee][+-]?\d+)?)|((\.\d+)?[Ee][+-]?\d+))") >= (
+        lambda x: success(Float(float(x)))
+        if isfinite(float(x))
+        else failure("a finite floating point literal")
     )
     integer = reg(r"[0-9]+") > (lambda x: Integer(int(x)))
     number = floating_point | integer
